@@ -73,11 +73,55 @@ def discoverModel (n : Nat) (dup : Bool) : String :=
   if dup then s!"receiver ok {okc}/{n} bad {badc} default {dflt} refused {refused}/{n} dupgot {dupgot}"
   else s!"receiver ok {okc}/{n} bad {badc} default {dflt}"
 
+/-- `table` lines: a history of events on one datagram server bound to a concrete address (local address 9);
+    after every event the remotes that have a live entry in the peer table, sorted (with multiplicity) -/
+def tableEvent (w : String) : Option Ev :=
+  match w.toList with
+  | c :: ds =>
+    match (String.ofList ds).toNat? with
+    | some i =>
+      if c == 'w' then some (.dgram ⟨i, .concrete 9, true, 0, 0⟩)
+      else if c == 'm' then some (.dgram ⟨i, .concrete 9, false, 0, 0⟩)
+      else if c == 'n' then some (.newConn i (.concrete 9))   -- NewConn on a listener bound to the concrete address
+      else if c == 'c' then some (.closePeer i (.concrete 9))
+      else none
+    | none => none
+  | [] => none
+
+def fmtTable (s : State) : String :=
+  let ids := (s.conns.map (fun c => c.key.1)).mergeSort (· ≤ ·)
+  if ids.isEmpty then "-" else ",".intercalate (ids.map toString)
+
+def tableModel (ws : List String) : String :=
+  match ws.mapM tableEvent with
+  | none => "bad-op"
+  | some evs =>
+    let (_, outs) := evs.foldl (fun (acc : State × List String) ev =>
+      let s' := step acc.1 ev
+      (s', acc.2 ++ [fmtTable s'])) (({} : State), [])
+    "t " ++ " ".intercalate outs
+
+/-- specification of the table: a peer has exactly one live entry iff its latest event is a well-formed datagram or a
+    server-initiated connection (not a malformed datagram, not a close); never two -/
+def tableSpec (ws : List String) : String :=
+  match ws.mapM tableEvent with
+  | none => "bad-op"
+  | some evs =>
+    let (_, outs) := evs.foldl (fun (acc : List Nat × List String) ev =>
+      let live := match ev with
+        | .dgram d => if d.wellFormed then (if acc.1.contains d.remote then acc.1 else acc.1 ++ [d.remote]) else acc.1.filter (· != d.remote)
+        | .newConn r _ => if acc.1.contains r then acc.1 else acc.1 ++ [r]
+        | .closePeer r _ => acc.1.filter (· != r)
+      let ids := live.mergeSort (· ≤ ·)
+      (live, acc.2 ++ [if ids.isEmpty then "-" else ",".intercalate (ids.map toString)])) (([] : List Nat), [])
+    "t " ++ " ".intercalate outs
+
 def handle (mode : String) (line : String) : String :=
   match line.splitOn " | " with
   | [inp] =>
     if mode == "model" then
       match words inp with
+      | "table" :: evs => tableModel evs
       | ["discover", n] => match n.toNat? with | some n => discoverModel n false | none => "bad-op"
       | ["discover", n, "dup"] => match n.toNat? with | some n => discoverModel n true | none => "bad-op"
       | ws =>
@@ -93,6 +137,9 @@ def handle (mode : String) (line : String) : String :=
       match keyeqSpec ws with
       | some b => if (if b then "1" else "0") == obs then "ok" else s!"violates key equality: expected {if b then 1 else 0}"
       | none => "bad-op"
+    | "table" :: evs =>
+      let exp := tableSpec evs
+      if obs == exp then "ok" else s!"violates peer table: expected `{exp}` (one live entry per peer whose latest event is a well-formed datagram or a server-initiated connection)"
     | "serve" :: "udpbacklog" :: _ =>
       match words obs with
       | ["b", "got", g, "waited", w, "slowhandled", _, "serving", sv] =>
